@@ -10,7 +10,7 @@ use std::ffi::OsString;
 
 pub static DEF: PropDef = PropDef {
     id: "C06",
-    rule: "random: argument count log-uniform in [1, 400000] x length profile {all 1 byte, 1-20 bytes, page-sized, mostly small with a few within 0-2 bytes of the per-argument limit (131071 bytes + NUL), mixed} (total input capped at ~12 MB) x environment size {minimal, 1/4, 3/4 of the kernel budget, spread over few large or many small variables} x RLIMIT_STACK {256 KiB, 1 MiB, 8 MiB, 64 MiB, unlimited} (kernel budget 128 KiB .. 6 MiB; set with setrlimit in the child before exec) x options {none, -n N, -s S (also S above the system limit), -L N}; NUL-separated input. A second sub-run places one argument of 131072..400000 bytes (over the per-argument limit) at a random position. Oracle: the kernel itself - the built xargs binary runs the rec recorder; violation iff xargs exits 126 / reports 'Argument list too long' / any other status than 0, or the concatenation of the recorded arguments differs from the input (nothing lost, duplicated or reordered); for an oversized argument: exit status 1, a diagnostic, and no recorded invocation contains it or anything after it. Non-trivial = total argv bytes + 8 bytes of pointer per argument exceed the kernel budget of the chosen stack limit (>= 2 invocations are required), or an argument within 2 bytes of the per-argument limit is present. Distinct = distinct case JSON.",
+    rule: "random: argument count log-uniform in [1, 400000] x length profile {all 1 byte, 1-20 bytes, page-sized, mostly small with a few within 0-2 bytes of the per-argument limit (131071 bytes + NUL), mixed} (total input capped at ~12 MB) x environment size {minimal, 1/4, 3/4 of the kernel budget, spread over few large or many small variables} x RLIMIT_STACK {256 KiB, 1 MiB, 8 MiB, 64 MiB, unlimited} (kernel budget 128 KiB .. 6 MiB; set with setrlimit in the child before exec) x options {none, -n N, -s S (also S above the system limit), -L N}; NUL-separated input. A third sub-run runs xargs -I{} with templates holding 1-8 occurrences of {} per argument on lines sized so that the SUBSTITUTED arguments approach or exceed the per-argument limit or the whole budget. A second sub-run places one argument of 131072..400000 bytes (over the per-argument limit) at a random position. Oracle: the kernel itself - the built xargs binary runs the rec recorder; violation iff xargs exits 126 / reports 'Argument list too long' / any other status than 0, or the concatenation of the recorded arguments differs from the input (nothing lost, duplicated or reordered); for an oversized argument: exit status 1, a diagnostic, and no recorded invocation contains it or anything after it. Non-trivial = total argv bytes + 8 bytes of pointer per argument exceed the kernel budget of the chosen stack limit (>= 2 invocations are required), or an argument within 2 bytes of the per-argument limit is present. Distinct = distinct case JSON.",
     assumptions: &[
         "Linux: per-argument limit MAX_ARG_STRLEN = 131072 bytes including the terminator; total budget max(min(RLIMIT_STACK/4, 6 MiB), 128 KiB) for strings plus one pointer per argument and environment entry",
         "the running kernel of this sandbox is the oracle for 'accepted by exec'",
@@ -368,13 +368,111 @@ pub fn check(ctx: &mut Ctx, c: &Case) -> Outcome {
         .ok()
 }
 
+// ---- replace mode: the command line is built by substitution ---------------------------------
+
+#[derive(Serialize, Deserialize, Debug, Clone)]
+pub struct ReplCase {
+    /// lengths of the input lines
+    pub lines: Vec<usize>,
+    /// per initial argument: how many times {} occurs in it
+    pub copies: Vec<u8>,
+    pub stack: u8,
+}
+
+fn gen_repl(g: &mut Gen) -> ReplCase {
+    let stack = g.weighted(&[3, 3, 3, 2]) as u8;
+    let b = budget(stack);
+    let n = g.usize_in(1, 4);
+    let copies: Vec<u8> = g.vec_of(1, 3, |g| g.pick(&[1u8, 1, 2, 3, 8]));
+    let total_copies: usize = copies.iter().map(|c| *c as usize).sum();
+    let lines = (0..n)
+        .map(|_| match g.below(6) {
+            0 => g.usize_in(1, 100),
+            1 => MAX_ARG_STRLEN / copies.iter().copied().max().unwrap_or(1) as usize - 2 + g.usize_in(0, 4),
+            2 => (b / total_copies).saturating_sub(3000) + g.usize_in(0, 6000),
+            3 => g.usize_in(30_000, 131_000),
+            4 => MAX_ARG_STRLEN - 2 + g.usize_in(0, 3),
+            _ => g.usize_in(1000, 20_000),
+        }.max(1))
+        .collect();
+    ReplCase { lines, copies, stack }
+}
+
+/// `xargs -I{} rec ARG...` where every ARG holds one or more {}: the substituted arguments may
+/// exceed the per-argument limit or the whole budget although every input line is far below both.
+/// Oracle: exec never rejects a command line (no status 126 / E2BIG); a line is either delivered
+/// substituted byte for byte, or refused with a diagnostic and exit status 1 (and nothing after it runs).
+fn check_repl(ctx: &mut Ctx, c: &ReplCase) -> Outcome {
+    let lines: Vec<Vec<u8>> = c.lines.iter().enumerate().map(|(i, l)| vec![b'a' + (i % 26) as u8; *l]).collect();
+    let mut input = Vec::new();
+    for l in &lines {
+        input.extend_from_slice(l);
+        input.push(b'\n');
+    }
+    let templates: Vec<String> = c.copies.iter().map(|k| vec!["{}"; *k as usize].join(":")).collect();
+    let mut cmd: Vec<OsString> = vec![rec_path()];
+    cmd.extend(templates.iter().map(OsString::from));
+    let bo = BinOpts { clear_env: true, stack_limit: Some(stack_bytes(c.stack)), timeout_s: 120, ..Default::default() };
+    let run = run_xargs(ctx, &["-I".into(), "{}".into()], &cmd, &input, "", bo);
+    let expand = |line: &[u8]| -> Vec<Vec<u8>> { c.copies.iter().map(|k| vec![line.to_vec(); *k as usize].join(&b':')).collect() };
+    let b = budget(c.stack);
+    let desc = || format!("xargs -I{{}} rec {templates:?}  < lines of {:?} bytes, RLIMIT_STACK {} (budget {b})\nexit {:?} signal {:?}\nstderr {:?}\ninvocations {}", c.lines, if stack_bytes(c.stack) == u64::MAX { "unlimited".to_string() } else { stack_bytes(c.stack).to_string() }, run.out.code, run.out.signal, lossy(&run.out.stderr[..run.out.stderr.len().min(400)]), run.records.len());
+    if !run.out.ordinary() {
+        return fail("C06:replace-mode:abnormal-termination", desc());
+    }
+    let stderr_s = lossy(&run.out.stderr);
+    if run.out.code == Some(126) || stderr_s.contains("Argument list too long") || stderr_s.contains("os error 7") {
+        return fail("C06:replace-mode:exec-rejected-substituted-command-line", desc());
+    }
+    // what certainly fits / certainly does not
+    let fits = |line: &[u8]| {
+        let ex = expand(line);
+        let total: usize = ex.iter().map(|a| a.len() + 9).sum::<usize>() + rec_path().len() + 9 + 16 + 2048 + 4096;
+        ex.iter().all(|a| a.len() < MAX_ARG_STRLEN) && total <= b
+    };
+    let impossible = |line: &[u8]| {
+        let ex = expand(line);
+        let total: usize = ex.iter().map(|a| a.len() + 1).sum::<usize>();
+        ex.iter().any(|a| a.len() + 1 > MAX_ARG_STRLEN) || total > b
+    };
+    for (i, r) in run.records.iter().enumerate() {
+        if i >= lines.len() || r.args != expand(&lines[i]) {
+            return fail("C06:replace-mode:substituted-arguments-differ", desc());
+        }
+    }
+    let n = run.records.len();
+    match run.out.code {
+        Some(0) => {
+            if n != lines.len() {
+                return fail("C06:replace-mode:line-lost", desc());
+            }
+            if lines.iter().any(|l| impossible(l)) {
+                return fail("C06:replace-mode:impossible-command-line-reported-as-run", desc());
+            }
+        }
+        Some(1) => {
+            if run.out.stderr.is_empty() || n >= lines.len() || fits(&lines[n]) {
+                return fail("C06:replace-mode:refused-a-line-that-fits-or-without-diagnostic", desc());
+            }
+        }
+        other => return fail(format!("C06:replace-mode:exit-status-{other:?}"), desc()),
+    }
+    let tight = lines.iter().any(|l| !fits(l));
+    Pass::new(tight).class("replace-mode").class_if(tight, "replace-mode-substitution-near-or-over-a-limit").class_if(run.out.code == Some(1), "replace-mode-refused").sample(json!({"cmdline": format!("xargs -I{{}} rec {templates:?}"), "line_lengths": c.lines, "budget": b, "exit": run.out.code})).ok()
+}
+
 fn run(w: &mut Worker) {
+    w.regress::<ReplCase>("replace", check_repl);
+    w.random("replace", w.tier.pick(160, 2_000), (16, 40), 30, gen_repl, check_repl);
     w.regress::<Case>("limits", check);
     w.regress::<Case>("oversize", check);
     w.random("limits", w.tier.pick(320, 4_000), (16, 40), 30, gen_plain, check);
     w.random("oversize", w.tier.pick(96, 1_000), (16, 40), 30, gen_oversize, check);
 }
 
-fn replay(w: &mut Worker, _sub: &str, v: Value) -> Outcome {
+fn replay(w: &mut Worker, sub: &str, v: Value) -> Outcome {
+    if sub == "replace" {
+        return check_repl(&mut w.ctx, &decode(v));
+    }
     check(&mut w.ctx, &decode(v))
 }
